@@ -104,6 +104,10 @@ func Gen(r *hlib.Rng, idx int, p Profile) *Hist {
 		h.Wave2 = 130 + r.Intn(40) // more follow-ups than the protocol has ids
 	}
 	h.LateInW2 = r.Chance(60)
+	h.PushEvents = r.Chance(20)
+	if r.Chance(3) {
+		h.IdleMs = 1300
+	}
 	return h
 }
 
@@ -134,16 +138,42 @@ func (rep *Report) Term() string {
 	for i, t := range rep.Traces {
 		var sb strings.Builder
 		fmt.Fprintf(&sb, "L %d [", t.Streams)
+		prevKeys := map[int]bool{}
 		for j, e := range t.Events {
 			if j > 0 {
 				sb.WriteString(";")
 			}
-			fmt.Fprintf(&sb, "E %d %d %s %d %s %s %s", e.Kind, e.Call, hlib.Z(int64(e.A)), e.B, hlib.Z(int64(e.NCalls)), hlib.Z(int64(e.SumKeys)), hlib.Z(int64(e.Closed)))
+			if e.Closed < 0 {
+				fmt.Fprintf(&sb, "V %d %d %s %d %d", e.Kind, e.Call, hlib.Z(int64(e.A)), e.B, e.InUse)
+				continue
+			}
+			// the key set as the difference to the previous trace point that held c.mu
+			cur := map[int]bool{}
+			var add, rem []int64
+			for _, k := range e.Keys {
+				cur[k] = true
+				if !prevKeys[k] {
+					add = append(add, int64(k))
+				}
+			}
+			for k := range prevKeys {
+				if !cur[k] {
+					rem = append(rem, int64(k))
+				}
+			}
+			sort.Slice(rem, func(a, b int) bool { return rem[a] < rem[b] })
+			prevKeys = cur
+			fmt.Fprintf(&sb, "E %d %d %s %d %s %d %s %s", e.Kind, e.Call, hlib.Z(int64(e.A)), e.B, hlib.Z(int64(e.Closed)), e.InUse, hlib.ZListI(add), hlib.ZListI(rem))
 		}
 		fmt.Fprintf(&sb, "] %s %s", hlib.Z(int64(rep.PrefixLen[i])), hlib.Z(int64(rep.Final[i])))
 		logs = append(logs, sb.String())
 	}
-	return "CHist " + hlib.List(logs)
+	// what every caller got (retained until the end of the history): request number, class, number seen
+	var rs []string
+	for _, r := range rep.Results {
+		rs = append(rs, fmt.Sprintf("R %d %d %s", r.Num, ClassCode[r.Class], hlib.Z(int64(r.SeenN))))
+	}
+	return "CHist " + hlib.List(logs) + " " + hlib.List(rs)
 }
 
 // NEvents is the total number of recorded events.
